@@ -10,6 +10,7 @@ import (
 	"time"
 
 	"github.com/ali-assar/NATS-Leader-Election/leader"
+	"github.com/nats-io/nats.go"
 	"github.com/prometheus/client_golang/prometheus"
 	"go.uber.org/zap"
 	"pgregory.net/rapid"
@@ -193,6 +194,21 @@ func checkC16(c cfg16) (string, string) {
 		if p.js != 0 || p.kv != 0 {
 			return "C16 reject-after-store-contact", fmt.Sprintf("rejected (%v) but store was contacted: JetStream()=%d KeyValue()=%d [%s]", err, p.js, p.kv, c)
 		}
+		// the other constructor, on a connection that was never dialled: whatever touches the store before
+		// validation gets that connection's error instead of the error that names the field
+		var err2 error
+		func() {
+			defer func() {
+				if r := recover(); r != nil {
+					err2 = fmt.Errorf("panic: %v", r) // the never-dialled connection was used
+				}
+			}()
+			_, err2 = leader.NewElectionWithConn(&nats.Conn{}, ec)
+		}()
+		var ve2 *leader.ValidationError
+		if err2 == nil || !errors.As(err2, &ve2) || ve2.Field != ve.Field {
+			return "C16 reject-differs-through-NewElectionWithConn", fmt.Sprintf("NewElection rejects naming %q, NewElectionWithConn on a connection that was never dialled returns: %v [%s]", ve.Field, err2, c)
+		}
 	}
 	if g1 > g0 {
 		// another test goroutine cannot appear: this package's tests are sequential
@@ -331,7 +347,7 @@ func record16(r *report.R, c cfg16) (string, string) {
 func TestC16(t *testing.T) {
 	r := report.New("C16")
 	defer r.Write()
-	r.Rule = "configurations drawn from the boundary lattice of every field (each duration at/1ns below/1ns above each threshold, 0, negative, up to 1 year; strings empty/short/300-byte/non-ASCII/arbitrary; ints around 0) mixed with uniform draws in +-1 year; plus complete enumeration of all pairwise deviations from a valid base (quick) or of the whole lattice product (thorough, sharded). Non-trivial = some field within 1ns/1 of a threshold, or >= 2 rules violated; distinct by hash of the configuration."
+	r.Rule = "configurations drawn from the boundary lattice of every field (each duration at/1ns below/1ns above each threshold, 0, negative, up to 1 year; strings empty/short/300-byte/non-ASCII/arbitrary; ints around 0) mixed with uniform draws in +-1 year; plus complete enumeration of all pairwise deviations from a valid base (quick) or of the whole lattice product (thorough, sharded). Every rejected configuration is also offered to NewElectionWithConn with a *nats.Conn that was never dialled: the same field's ValidationError must come back (nothing may touch the connection before validation). Non-trivial = some field within 1ns/1 of a threshold, or >= 2 rules violated; distinct by hash of the configuration."
 	r.Assume("durations up to 1 year so that 3*HeartbeatInterval cannot overflow int64")
 	r.Assume("provider returns a working JetStream/KeyValue; NewElection is called sequentially (goroutine count is compared before/after)")
 	var cur cfg16
